@@ -2,16 +2,100 @@
 
 package strobe
 
-// Verification-only accessors for C13 (grafted by the /verif overlay; never part of the repository).
+import (
+	"encoding/binary"
+	"reflect"
+	"strings"
+	"unsafe"
+)
 
-// VerifKeccakF1600Bytes applies the permutation exactly as the Strobe object
-// calls it in this build (assembly on amd64, keccakf.go under purego).
-func VerifKeccakF1600Bytes(s *[200]byte) { keccakF1600Bytes(s) }
+// Verification-only accessors for C13 / C12 (grafted by the /verif overlay; never part of the repository).
+//
+// The Strobe object is read through reflection BY FIELD NAME, so that this file keeps compiling when the
+// representation of the state changes (byte array <-> lane array, int <-> uint8 cursors, ...).  What can
+// no longer be read is reported by VerifMissing and the harness degrades (it never fails to build).
+// The accessors of the Keccak permutation, which name unexported functions, live in their own file.
 
-// VerifKeccakF1600Lanes applies the lane-level permutation of this build.
-func VerifKeccakF1600Lanes(a *[25]uint64) { keccakF1600(a) }
+func verifField(v reflect.Value, name string) (reflect.Value, bool) {
+	f := v.FieldByName(name)
+	if !f.IsValid() {
+		return f, false
+	}
+	if f.CanAddr() {
+		f = reflect.NewAt(f.Type(), unsafe.Pointer(f.UnsafeAddr())).Elem()
+	}
+	return f, true
+}
 
-// VerifFields exposes every field of a Strobe object (read-only view).
+func verifInt(v reflect.Value, name string) (int, bool) {
+	f, ok := verifField(v, name)
+	if !ok {
+		return 0, false
+	}
+	switch f.Kind() {
+	case reflect.Int, reflect.Int8, reflect.Int16, reflect.Int32, reflect.Int64:
+		return int(f.Int()), true
+	case reflect.Uint, reflect.Uint8, reflect.Uint16, reflect.Uint32, reflect.Uint64:
+		return int(f.Uint()), true
+	}
+	return 0, false
+}
+
+// verifSponge returns the 200 state bytes: a pointer into the object when the state is a [200]byte,
+// otherwise a little-endian serialisation of a [25]uint64.
+func verifSponge(v reflect.Value) (*[200]byte, bool) {
+	f, ok := verifField(v, "st")
+	if !ok {
+		return nil, false
+	}
+	switch {
+	case f.Kind() == reflect.Array && f.Len() == 200 && f.Type().Elem().Kind() == reflect.Uint8 && f.CanAddr():
+		return (*[200]byte)(unsafe.Pointer(f.UnsafeAddr())), true
+	case f.Kind() == reflect.Array && f.Len() == 25 && f.Type().Elem().Kind() == reflect.Uint64:
+		var out [200]byte
+		for i := 0; i < 25; i++ {
+			binary.LittleEndian.PutUint64(out[8*i:], f.Index(i).Uint())
+		}
+		return &out, true
+	}
+	return nil, false
+}
+
+// VerifFields exposes every field of a Strobe object (read-only view).  Fields that cannot be read are
+// returned as zero values; see VerifMissing.
 func VerifFields(s *Strobe) (st *[200]byte, pos, posBegin int, curFlags uint8, r int, initialized bool) {
-	return &s.st, s.pos, s.posBegin, uint8(s.curFlags), s.r, s.initialized
+	v := reflect.ValueOf(s).Elem()
+	st, ok := verifSponge(v)
+	if !ok {
+		st = &[200]byte{}
+	}
+	pos, _ = verifInt(v, "pos")
+	posBegin, _ = verifInt(v, "posBegin")
+	cf, _ := verifInt(v, "curFlags")
+	r, okR := verifInt(v, "r")
+	if !okR {
+		r = 166
+	}
+	initialized = true
+	if f, ok := verifField(v, "initialized"); ok && f.Kind() == reflect.Bool {
+		initialized = f.Bool()
+	}
+	return st, pos, posBegin, uint8(cf), r, initialized
+}
+
+// VerifMissing names the state components that can no longer be read from this tree ("" when all can).
+// The rate and the initialised flag are optional (constants of an initialised object).
+func VerifMissing() string {
+	var s Strobe
+	v := reflect.ValueOf(&s).Elem()
+	var m []string
+	if _, ok := verifSponge(v); !ok {
+		m = append(m, "st")
+	}
+	for _, n := range []string{"pos", "posBegin", "curFlags"} {
+		if _, ok := verifInt(v, n); !ok {
+			m = append(m, n)
+		}
+	}
+	return strings.Join(m, ",")
 }
